@@ -96,7 +96,7 @@ MOVEMENT = {
     'dynamic_update_slice', 'gather', 'scatter', 'copy_p', 'copy',
 }
 NO_CONCRETE_BIND = {
-    'while', 'cond', 'jit', 'pjit', 'closed_call', 'core_call', 'remat', 'checkpoint',
+    'while', 'cond', 'jit', 'pjit', 'closed_call', 'core_call', 'remat', 'remat2', 'checkpoint',
     'custom_jvp_call', 'custom_vjp_call', 'custom_vjp_call_jaxpr', 'axis_index',
     'all_gather', 'psum', 'pmax', 'pmin', 'symstub', 'scan', 'sharding_constraint',
     'eigh', 'svd', 'qr', 'mesh_cast', 'reshard', 'psum_invariant', 'pvary', 'pbroadcast', 'all_gather_invariant',
@@ -156,6 +156,13 @@ class Interp:
       return self.movement(eqn, ins)
     h = getattr(self, 'p_' + name, None)
     if h is None:
+      # generic call-like primitive (a wrapper around a sub-jaxpr with the same inputs and outputs, e.g. a new spelling of
+      # jit / checkpoint / named_call): evaluate the body in line
+      for key in ('jaxpr', 'call_jaxpr', 'fun_jaxpr'):
+        cj = eqn.params.get(key)
+        inner = getattr(cj, 'jaxpr', cj)
+        if inner is not None and hasattr(inner, 'eqns') and len(inner.invars) == len(ins) and len(inner.outvars) == len(eqn.outvars):
+          return self.eval(inner, getattr(cj, 'consts', ()), *ins)
       raise Unsupported(f'primitive {name} params={list(eqn.params.keys())}')
     return h(eqn, ins)
 
@@ -489,6 +496,7 @@ class Interp:
     cj = e.params['jaxpr']
     return self.eval(cj, (), *i)
   p_checkpoint = p_remat
+  p_remat2 = p_remat
 
   def p_custom_jvp_call(self, e, i):
     cj = e.params['call_jaxpr']
